@@ -5,7 +5,7 @@ func init() {
 	barrierStub := []string{"goroutine scheduling (nsim scheduler decides who runs at every yield site)", "AccessBarrier mutex hand-off order (modelled lock, granted by the scheduler)", "node allocator for the host skiplist's sentinels (plain Go-heap allocator)"}
 	defCheck(&checkDef{Prop: "C16", Level: "exploration",
 		Scens:   []scenBudget{{"barrier", 60000, 3000000}},
-		Rule:    "one evaluation = one generated plan (2-5 tasks x 1-12 Acquire/Release/FlushSession operations, nested holders, flushes by token holders) executed under one drawn schedule (random(p) / PCT(d<=4) / stall at a barrier site, worker bias, site-class subset); non-trivial = at least one preemption happened between the call and the return of a barrier operation; distinct = distinct 64-bit hash of the scheduling trace plus observed event log",
+		Rule:    "one evaluation = one generated plan (2-5 tasks x 1-12 Acquire/Release/FlushSession operations, nested holders, flushes by token holders, a quarter of the flushes without an object) executed under one drawn schedule (random(p) / PCT(d<=4) / stall at a barrier site, worker bias, site-class subset); non-trivial = at least one preemption happened between the call and the return of a barrier operation; distinct = distinct 64-bit hash of the scheduling trace plus observed event log",
 		Real:    barrierReal, Stubbed: barrierStub,
 		Assume:  []string{"sequential consistency at the granularity of the yield sites (every atomic step of the barrier)", "plans bounded to <=5 tasks x <=12 operations"},
 	})
@@ -26,7 +26,7 @@ func init() {
 	})
 	defCheck(&checkDef{Prop: "C14", Level: "exploration",
 		Scens:  []scenBudget{{"sl", 40000, 1500000}},
-		Rule:   "same runs as C13 (skiplist level); at scheduler-detected quiescence a non-yielding walk of all 33 levels checks chain/acyclic/strictly-increasing/sub-sequence/tower invariants and reconciles GetStats()/MemoryInUse()/allocs-frees with the walk and the allocator; non-trivial = a preemption inside an operation; distinct = distinct trace hash",
+		Rule:   "same runs as C13 (skiplist level); at scheduler-detected quiescence a non-yielding walk of all 33 levels checks chain/acyclic/strictly-increasing/sub-sequence/tower invariants and reconciles GetStats()/MemoryInUse()/allocs-frees with the walk and the allocator (an Insert that panics under Go-managed memory ends its client only; what it left behind is judged by the same walk); non-trivial = a preemption inside an operation; distinct = distinct trace hash",
 		Real:   slReal, Stubbed: slStub,
 		Assume: []string{"quiescence is the scheduler verdict"},
 	})
@@ -51,7 +51,7 @@ func init() {
 	})
 	defCheck(&checkDef{Prop: "C02", Level: "exploration",
 		Scens:  []scenBudget{{"nitro_seq", 20000, 600000}, {"nitro", 6000, 200000}},
-		Rule:   nitroRule("one client goroutine issuing Put/Put2/Delete/Delete2/DeleteNode/GetNode/NewSnapshot/Close through 1-3 writers (nitro_seq), and disjoint-ownership concurrent writers (nitro); collection and free workers run concurrently; oracle: every return value, ItemsCount, Snapshot.Count and snapshot content equal the reference set"),
+		Rule:   nitroRule("one client goroutine issuing Put/Put2/Delete/Delete2/DeleteNode/GetNode/NewSnapshot/Close through 1-3 writers (nitro_seq), and disjoint-ownership concurrent writers (nitro); collection and free workers run concurrently; oracle: every return value, ItemsCount, Snapshot.Count and snapshot content equal the reference set, incl. a final audit (every key looked up, one more snapshot) after everything was closed and collected; keys of 4-7 bytes"),
 		Real:   nReal, Stubbed: nStub, Assume: nAssume,
 	})
 	defCheck(&checkDef{Prop: "C03", Level: "exploration",
@@ -92,7 +92,7 @@ func init() {
 
 	defCheck(&checkDef{Prop: "C08", Level: "exploration",
 		Scens:  []scenBudget{{"handles", 30000, 1500000}, {"nitro", 6000, 200000}},
-		Rule:   nitroRule("1-3 snapshots, 1-4 handle tasks per snapshot looping Open -> (scan | NewIterator -> scan -> Iterator.Close) -> Close without any harness-side protection, racing the owner's final Close; then 1-3 later snapshots are created and closed; oracle: porcupine counter spec per snapshot (Open succeeds iff count>0), exact scans through handles obtained by a successful Open, and at quiescence after GC(): GetSnapshots empty, GetLastGCSn == highest snapshot, physical set == live set"),
+		Rule:   nitroRule("1-5 snapshots (stalls also inside the collection pass), 1-4 handle tasks per snapshot looping Open -> (scan | NewIterator -> scan -> Iterator.Close) -> Close without any harness-side protection, racing the owner's final Close; then 1-3 later snapshots are created and closed; oracle: porcupine counter spec per snapshot (Open succeeds iff count>0), exact scans through handles obtained by a successful Open, and at quiescence after GC(): GetSnapshots empty, GetLastGCSn == highest snapshot, physical set == live set"),
 		Real:   nReal, Stubbed: nStub, Assume: nAssume,
 		WarnProbe: []string{"handle_ops"},
 	})
@@ -100,7 +100,7 @@ func init() {
 	dStub := append([]string{"disk faults: VerifWrapWriter substitutes the writer below bufio (ENOSPC budget, EIO, short write), VerifFS fails open/WriteFile/close boundaries; process death = copy of the real directory at a file-system boundary", "DiskBlockSize and shard count drawn per run"}, nStub...)
 	defCheck(&checkDef{Prop: "C05", Level: "exploration",
 		Scens:  []scenBudget{{"backup", 9000, 500000}},
-		Rule:   nitroRule("1-4 phases of history, StoreToDisk of any open snapshot as a task while writers, snapshot churn, closers and GC continue (delta on/off, 1-33 shards, block size 16B-512KiB), then LoadFromDisk into a fresh instance with the same configuration (concurrency 1-8), exact comparison, independent re-parse of every file, delta accounting, structural walk, and 0-2 further phases on the restored instance against the reference set"),
+		Rule:   nitroRule("1-4 phases of history, StoreToDisk of any open snapshot as a task while writers, snapshot churn, closers and GC continue (delta on/off, 1-33 shards, block size 16B-512KiB; in 30% of the runs the directory already holds a backup of an older snapshot), then LoadFromDisk into a fresh instance with the same configuration (concurrency 1-8), exact comparison, independent re-parse of every file, delta accounting, structural walk, and 0-2 further phases on the restored instance against the reference set"),
 		Real:   nReal, Stubbed: dStub, Assume: nAssume,
 		WarnProbe: []string{"item_only_in_delta", "item_in_data_and_delta", "delta_records_written"},
 	})
